@@ -349,6 +349,7 @@ def run(chk, which):
                         chk.fail_inconclusive(f"trap in harness phase {r['phase']} inst {r['inst']} case {r['case']} ({fl})")
                 if ev["total"] > len(ev["recs"]):
                     chk.fail_inconclusive(f"{ev['total']} traps, record buffer overflowed ({fl} shard {si})")
+    core.reach(chk, emit_tu([i for i in instances if i["id"] % 9 == 0][:40], finst[:8]), [[300, 1, 0]])
     chk.add_evals(total_evals, len(nontrivial))
     chk.cov["rule"] = ("instance = (rep T, conversion factor N/D) from the structured+random grid; every instance is executed on all values of T "
                        "(8/16-bit, and 32-bit in the thorough plain build) or on the oracle's threshold neighbourhoods + seeded random values; "
